@@ -23,6 +23,12 @@ pub fn compute(world: &World, trace: &[Rec], v: &Violation) -> Vec<String> {
     if non_en {
         tags.push("non-en".into());
     }
+    // every difference is a formula text that gained implicit-intersection operators
+    if !v.diff.is_empty()
+        && v.diff.iter().all(|l| l.facet == "cell.content" && l.actual != l.expected && l.actual.contains('@') && l.actual.replace('@', "") == l.expected.replace('@', ""))
+    {
+        tags.push("diff:only-added-intersection".into());
+    }
     // state tags, on the primary node
     let model = world.primary.model();
     let units = deps::units(model);
